@@ -18,7 +18,7 @@ from svlib import *  # noqa
 CORRESPONDENCE_CLASSES = {
     "compile-term", "ast-not-well-typed", "model-stuck", "model-internal", "model-panic", "peg-model", "acceptance", "typed-ast",
     "jet-model", "span-model", "generator", "value-print-model", "type-print-model", "module-print-model", "render-model",
-    "ptree-model", "print-model",
+    "ptree-model", "print-model", "lex-model",
 }
 
 
